@@ -11,6 +11,9 @@ Lemma link_minWorkers : C07_Gen.minWorkers = 1%Z.
 Proof. reflexivity. Qed.
 Lemma link_defaultWorkers : C07_Gen.defaultWorkers = 16%Z.
 Proof. reflexivity. Qed.
+(* the literals the checkers use (Exec.eff_workers) are the regenerated constants *)
+Lemma link_exec_workers : Exec.min_workers = C07_Gen.minWorkers /\ Exec.default_workers = C07_Gen.defaultWorkers.
+Proof. split; reflexivity. Qed.
 
 (* mapReduceWithPanicChan :174-254.  Model: C (select arms ctx / panicChan / output, deferred range over output),
    finish = once{close(done); close(output)}, cancel = once{retErr.Set; drain(source); finish}, reducer goroutine
